@@ -191,6 +191,14 @@ func runC04(t *testing.T, c c04Cfg) {
 		np := sc.parentObject(r.kids, r.rev, r.extra)
 		s.MustCreate(pgvr, np)
 	}
+	// someone adds an owner reference of their own to the object after metacontroller's cache saw
+	// it (the child watch is held back): whatever the sync does, that reference must survive
+	s.HoldWatch(gvr, true)
+	late := sim.Obj{"apiVersion": "v1", "kind": "ConfigMap", "metadata": sim.Obj{"name": "late", "uid": "late-" + uid}}
+	lateAdded := false
+	if _, err := s.ExtMutate(gvr, sim.NS(created), sim.Name(created), func(o sim.Obj) { sim.AddOwner(o, late, false) }); err == nil {
+		lateAdded = true
+	}
 	r.w.q.Add(sc.parentKey())
 	// exactly one sync of the parent
 	var sr *syncResult
@@ -202,6 +210,7 @@ func runC04(t *testing.T, c c04Cfg) {
 		}
 	}
 	s.HoldWatch(pgvr, false)
+	s.HoldWatch(gvr, false)
 	if sr == nil {
 		inconclusive(t, "C04", id, fmt.Errorf("parent was not synced"))
 		return
@@ -302,6 +311,19 @@ func runC04(t *testing.T, c c04Cfg) {
 			}
 			if n > 1 {
 				viol("two-controllers", fmt.Sprintf("%s %s has %d controller references", res, k, n))
+			}
+		}
+	}
+	if lateAdded {
+		if cur := s.Peek(gvr, sim.NS(created), sim.Name(created)); cur != nil && sim.UID(cur) == sim.UID(created) {
+			found := false
+			for _, ref := range sim.OwnerRefs(cur) {
+				if ref.UID == "late-"+uid {
+					found = true
+				}
+			}
+			if !found {
+				viol("foreign-owner-ref-lost:added-after-cache-snapshot", "an owner reference that someone else added after metacontroller's cache saw the object disappeared")
 			}
 		}
 	}
